@@ -4,6 +4,7 @@ package meta_leaseset
 import (
 	"encoding/binary"
 	"sort"
+	"strings"
 	"time"
 
 	common "github.com/go-i2p/common/data"
@@ -204,6 +205,9 @@ func parseOfflineSignature(mls *MetaLeaseSet, data []byte) ([]byte, error) {
 // Returns remaining data after parsing or error if parsing fails.
 func parseOptionsMapping(mls *MetaLeaseSet, data []byte) ([]byte, error) {
 	mapping, rem, errs := common.ReadMapping(data)
+	// The options mapping is embedded in the larger MetaLeaseSet, so ReadMapping always
+	// reports the "data exists beyond length of mapping" warning; only other errors are fatal.
+	errs = fatalMappingErrors(errs)
 	if len(errs) > 0 {
 		err := oops.
 			Code("options_parse_failed").
@@ -345,6 +349,9 @@ func parseEntryFixedFields(entry *MetaLeaseSetEntry, data []byte) []byte {
 // parseEntryProperties reads the properties mapping for a MetaLeaseSet entry.
 func parseEntryProperties(entry *MetaLeaseSetEntry, entryIndex int, data []byte) ([]byte, error) {
 	properties, rem, errs := common.ReadMapping(data)
+	// Entry properties are followed by further entries / the signature: the trailing-data
+	// warning is expected here and is not an error.
+	errs = fatalMappingErrors(errs)
 	if len(errs) > 0 {
 		err := oops.
 			Code("entry_properties_parse_failed").
@@ -691,4 +698,18 @@ func (entry *MetaLeaseSetEntry) Bytes() ([]byte, error) {
 	}
 
 	return result, nil
+}
+
+// fatalMappingErrors drops the "data exists beyond length of mapping" warning that
+// ReadMapping reports for every mapping embedded in a larger byte stream and returns
+// the remaining (genuine) parse errors.
+func fatalMappingErrors(errs []error) []error {
+	var fatal []error
+	for _, e := range errs {
+		if strings.Contains(e.Error(), "data exists beyond length of mapping") {
+			continue
+		}
+		fatal = append(fatal, e)
+	}
+	return fatal
 }
